@@ -319,6 +319,11 @@ func (s *Stream) ReceiveFrame(ctx context.Context) ([]byte, error) {
 
 	// Handle zero-length messages
 	if messageLength == 0 {
+		// A protected frame always carries at least the GCM tag, so an empty frame
+		// on an encrypting stream was not produced by the peer's sealer.
+		if s.gcm != nil && s.encrypted {
+			return nil, fmt.Errorf("empty frame on encrypted stream")
+		}
 		return []byte{}, nil
 	}
 
@@ -374,6 +379,11 @@ func (s *Stream) ReceiveFrameWithEnd(ctx context.Context) ([]byte, byte, error) 
 
 	// Handle zero-length messages
 	if messageLength == 0 {
+		// A protected frame always carries at least the GCM tag, so an empty frame
+		// on an encrypting stream was not produced by the peer's sealer.
+		if s.gcm != nil && s.encrypted {
+			return nil, 0, fmt.Errorf("empty frame on encrypted stream")
+		}
 		// Track header for AAD digest calculation
 		if s.recvDigest != nil && s.finalRecvDigest == nil {
 			s.recvDigest.Write(header)
